@@ -1,7 +1,7 @@
 (* C16 — the BER decoder is safe on arbitrary bytes: error or value, never a
    panic, never an out-of-range access, always terminating. *)
 From Coq Require Import List ZArith Bool.
-From Verif Require Import Common.Outcome Common.Bytes Ber.Model Ber.Safety.
+From Verif Require Import Common.Outcome Common.Bytes Ber.Model Ber.Safety Ber.WrongType.
 Import ListNotations.
 Open Scope Z_scope.
 
@@ -39,13 +39,35 @@ Example C16_truncated : dec TInt p0 [2] = Err /\ dec TInt p0 [2; 130; 1] = Err /
                         dec TInt p0 [31; 129] = Err.
 Proof. vm_compute. repeat split. Qed.
 
-(* KNOWN FINDING C16/wrong-type-accepted: the statement "wrongly-typed input is
-   reported as an error" is false of the faithful model: the decoder never
-   compares the identifier octets with the target type. *)
-Theorem C16_wrong_type_refuted :
-  exists bs, dec TInt p0 bs = Ok (VInt 5) /\ parse_tl bs = Ok (mkTal 0 false 4 1, 2).
-Proof. exists [4; 1; 5]. vm_compute. split; reflexivity. Qed.
-Print Assumptions C16_wrong_type_refuted.
+(* wrongly-typed input: whenever the decoder returns a value, the identifier octets the
+   input starts with are the ones the target type and its parameters call for ([expected],
+   Ber/WrongType.v: form and universal tag of the type, the member's context tag under
+   IMPLICIT tagging, the constructed wrapper under EXPLICIT tagging and around a tagged
+   CHOICE, one of the alternatives for an untagged CHOICE) -- for every type descriptor,
+   parameter record and byte string.  (Before the repair recorded under C16 in
+   known_findings.txt the statement was false: 04 01 05 decoded into an int64 as 5.) *)
+Theorem C16_wrong_type : forall t p bs v tl off,
+  dec t p bs = Ok v -> parse_tl bs = Ok (tl, off) -> expected t p tl = true.
+Proof. exact dec_ok_expected. Qed.
+Print Assumptions C16_wrong_type.
+
+(* ... the form the property states it in *)
+Theorem C16_wrong_type_is_error : forall t p bs tl off,
+  bytes_ok bs = true -> parse_tl bs = Ok (tl, off) -> expected t p tl = false -> dec t p bs = Err.
+Proof. exact dec_wrong_type_is_error. Qed.
+Print Assumptions C16_wrong_type_is_error.
+
+(* non-vacuity of both: identifiers that are not expected, reported as errors, and
+   the expected one accepted *)
+Example C16_wrong_type_examples :
+  expected TInt p0 (mkTal 0 false 4 1) = false /\ dec TInt p0 [4; 1; 5] = Err /\
+  dec TInt p0 [34; 1; 5] = Err /\ dec TBool p0 [2; 1; 5] = Err /\
+  dec (TSeq []) p0 [4; 0] = Err /\ dec (TSeq []) p0 [16; 0] = Err /\
+  dec TInt (mkP false false (Some 3) false false 0) [2; 1; 5] = Err /\
+  dec TInt (mkP false false (Some 3) true false 0) [131; 3; 2; 1; 5] = Err /\
+  expected TInt p0 (mkTal 0 false 2 1) = true /\ dec TInt p0 [2; 1; 5] = Ok (VInt 5) /\
+  dec TInt (mkP false false (Some 3) true false 0) [163; 3; 2; 1; 5] = Ok (VInt 5).
+Proof. vm_compute. repeat split. Qed.
 
 (* non-vacuity: the hypothesis is met by real encodings, and Ok is reachable *)
 Example C16_nonvacuous :
